@@ -295,9 +295,6 @@ func c19Run(e *core.Env) {
 		}
 	}
 	tmax := 45
-	if !e.Thorough() {
-		tmax = 25
-	}
 	var xs []Operand
 	u64 := new(big.Int).SetUint64(^uint64(0))
 	for t := 0; t <= tmax; t++ {
@@ -396,7 +393,7 @@ func init() {
 			if tier == "thorough" {
 				return "NumDigits: all |b| < 2^22; bit lengths 1..4096 (2^(n-1), 2^n-1, 10^k-1,10^k,10^k+1 inside); 10^k+-{0,1} for k <= 1300 and k in {5000,20000,99999,100000}; Reduce: m*10^t, m < 1000 not divisible by 10 + m around 2^64/10^t, t = 0..45, 4 exponents, both signs, zeros of 8 exponents x 7 destination pre-states x (p in {1,2,3,5} x 11 ranges x 3 modes + precision 0)"
 			}
-			return "NumDigits: all |b| < 2^20; bit lengths 1..700; 10^k+-{0,1} for k <= 400 and k in {5000,20000}; Reduce: every third m*10^t (m < 1000, t = 0..25) + 2^64/10^t edges x 7 destination pre-states x contexts"
+			return "NumDigits: all |b| < 2^20; bit lengths 1..700; 10^k+-{0,1} for k <= 400 and k in {5000,20000}; Reduce: every third m*10^t (m < 1000, t = 0..45) + 2^64/10^t edges x 7 destination pre-states x contexts"
 		},
 		Run:    c19Run,
 		Replay: c19Replay,
